@@ -15,7 +15,7 @@ CHECKS = {
                  'distance; levenshtein_alignment_substring returns (walk from the best end row) ++ (free trailing symbols) with '
                  'cost(walk) minus its free leading deletions equal to the optimum over all substrings (about 800 obligations in all).'),
         'note': ('Trusted: pyvc generator and its numpy model table (A1-A5), spec functions validated against brute force on a bounded '
-                 'domain, well-founded induction scheme of loop invariants; numpy object-array element equality (A5) checked at run time.'),
+                 'domain, well-founded induction scheme of loop invariants; numpy object-array element equality (A5) checked at run time. Bounded additions (rounds 15/16): aggregate over list / tuple / iterator / generator; sequences of 40 000 symbols and totals beyond 16 bits. Code asking for a narrow numpy element type is left undecided by the generator (machine arithmetic is not modelled).'),
     },
 }
 
@@ -37,7 +37,7 @@ CHECKS['C19'] = {
              'arg-max engine (scan invariant over BESTC/ARGB), the maximum is recorded when positive, no other object and no other field changes '
              '(48 obligations incl. a syntactic frame obligation). Self-merge is decided by the bounded tier only.'),
     'note': ('Trusted: pyvc; get_confidences opaque (pure function of transcription/logits/characters/logit_coords); zip(*iterators) modelled as '
-             'position-wise tuples LINE(e,p); distinct line objects assumed in the unbounded contract (aliasing covered by the bounded self-merge cases).'),
+             'position-wise tuples LINE(e,p); distinct line objects assumed in the unbounded contract (aliasing covered by the bounded self-merge cases). Bounded addition (round 16): incremental merges (merge(A, B), then the result with C) equal the single merge.'),
 }
 
 CHECKS['C02'] = {
@@ -70,7 +70,7 @@ CHECKS['C03'] = {
              'lm_sc equals the LM\'s own sum (+bonus, +eos), best_hyp maximises vis+scale*lm, confidence and returned state belong to it, scale 0 reproduces '
              'LM-free decoding (grid of C02 x scale x bonus x eos x init state).'),
     'note': ('Trusted: pyvc; assumed contracts of the LM object (item-wise, deterministic), of multisort.top_k and of the pre-selection; decoder proof for init_h = None; '
-             'build_boh opaque in the decoder proof; toy LM stands for all history-dependent LMs in the bounded tier; real LMWrapper (torch) not verified.'),
+             'build_boh opaque in the decoder proof; toy LM stands for all history-dependent LMs in the bounded tier; real LMWrapper (torch) not verified. Bounded additions (rounds 15/16): one long-lived decoder over text / blank-only / text / text per grid point; the torch LSTM behind the real LMWrapper has dropout and arrives in training mode.'),
 }
 
 CHECKS['C04'] = {
@@ -83,7 +83,7 @@ CHECKS['C04'] = {
              'the collapse, in frame order.  BOUNDED, not proved: greedy_decode_ctc, PytorchEngineLineOCR.run_ocr (stub network) and '
              'GreedyDecoder equal the CTC collapse of the arg-max path for every arg-max path T<=5 (3 classes) / T<=3 (4 classes) in three score styles incl. '
              'exact ties, and for all batches of two paths T<=3; both decoders agree row by row.'),
-    'note': 'Trusted: pyvc; torch operations modelled as numpy (arg-max = first maximal index); that the two decoders agree (equal characterisations => equal lists) is bounded only.',
+    'note': 'Trusted: pyvc; torch operations modelled as numpy (arg-max = first maximal index); that the two decoders agree (equal characterisations => equal lists) is bounded only. Bounded addition (round 16): a real PytorchEngineLineOCR built by its constructor from an OCR json (charsets where two classes share a symbol) around a TorchScript checkpoint with scripted scores.',
 }
 CHECKS['C05'] = {
     'level': 'proof',
@@ -107,7 +107,7 @@ CHECKS['C16'] = {
              '(clip and masking structure); posteriors <= 0 and differ from total scores by one constant; confidence in (0,1]; transcript_confidence in [0,1]; '
              'line_confident_enough monotone in its threshold (relational proof over two runs). BOUNDED numeric: range, shift invariance, one-hot = 1, '
              'posteriors sum to 1 on a grid of matrices and on bag histories (query/add/re-weight/query).'),
-    'note': 'Trusted: pyvc; exp and logsumexp are uninterpreted with the listed axioms (A2: reals, no round-off); numpy row reductions opaque pure functions in the relational proof; "within round-off" clauses are numeric/bounded only.',
+    'note': 'Trusted: pyvc; exp and logsumexp are uninterpreted with the listed axioms (A2: reals, no round-off); numpy row reductions opaque pure functions in the relational proof; "within round-off" clauses are numeric/bounded only. Bounded additions (round 16): the confident-line test as PageDecoder.decode_line applies it (threshold sweep incl. 0 / 0.0 / numpy 0); lines of 600-2100 logit frames (genuine defect fixed in c076aee).',
 }
 
 CHECKS['C14'] = {
@@ -127,7 +127,7 @@ CHECKS['C01'] = {
              'BOUNDED: round trip equal up to the documented rounding, fixpoint of the re-exported document, regions held/written in reading order, both PAGE '
              'versions, exhaustive over the product of line-attribute pools (972 single-line layouts) and all structures of 0..3 regions x 0..2 lines with every '
              'partial reading-order permutation. Heights are compared only where present (absent heights are guessed on import by design).'),
-    'note': 'Trusted: pyvc; lxml (A6); strings outside the transcription pool are not decided; coordinate string codec is bounded only.',
+    'note': 'Trusted: pyvc; lxml (A6); strings outside the transcription pool are not decided; coordinate string codec is bounded only. Bounded additions (rounds 15/16): XML-legal edge characters (DEL, C1, U+D7FF, U+E000, U+FFFD) in line and region text; the same document imported again after the first import was changed in place.',
 }
 
 CHECKS['C08'] = {
@@ -139,7 +139,7 @@ CHECKS['C08'] = {
              'length <= 3 x carry on/off x 5 thresholds equal the solo result; engine histories on one OCR engine; the real LMWrapper around a training-mode LSTM LM with '
              'dropout decodes one matrix three times identically. The multi-process schedule clause is NOT decided (no thread/process reasoning in this family).'),
     'note': ('Trusted: pyvc; decoder / LM / logits preparation are opaque pure functions (A6; frame scan shows LMWrapper assigns no attribute); module-level RNG '
-             'tie-breaks in layout stages are listed in the evidence, not proved absent; Pool.starmap scheduling outside the technique.'),
+             'tie-breaks in layout stages are listed in the evidence, not proved absent; Pool.starmap scheduling outside the technique. Bounded addition (round 16): beam width 1 and a line / other line / line / line history through one decoder and LM wrapper.'),
 }
 
 CHECKS['C17'] = {
@@ -150,7 +150,7 @@ CHECKS['C17'] = {
              'kill point between writes; every guarded block writes its path; no division by zero at exit. BOUNDED: real main() + real writers killed in every gap between two '
              'writes, at both ends of the gap (next write about to start / previous write just completed; 1-2 crashes quick, up to 3 thorough) for representative / all output subsets and ids with dots: final tree equals the uninterrupted tree, '
              'complete pages not reprocessed, idle run exits cleanly; file-name -> id mapping exhaustive over names of length <= 5.'),
-    'note': 'Trusted: atomic file writes (kills between writes only); stub PageParser; the induction from the three per-call obligations to arbitrary crash/resume sequences is a pen-and-paper argument in DESIGN.md.',
+    'note': 'Trusted: atomic file writes (kills between writes only); stub PageParser; the induction from the three per-call obligations to arbitrary crash/resume sequences is a pen-and-paper argument in DESIGN.md. Bounded addition (round 16): a kill inside an XML writer at the moment serialisation starts (position k + 0.5).',
 }
 
 CHECKS['C09'] = {
@@ -176,7 +176,7 @@ CHECKS['C06'] = {
              'margins tile the page up to integer truncation; re-import gives the same words - for 20 transcriptions (blank/NBSP/tab/thin/ideographic/zero-width spaces, '
              'out-of-charset, Arabic/Latin) x 5 logits kinds x structures. _reverse is a permutation and an involution on all strings of length <= 5 (6) over 9 symbols.'),
     'note': ('Trusted: pyvc; slice mode drops the XML construction and the per-line loop of the block loop after a syntactic non-interference check; get_hwvh assumed to return '
-             'non-negative extents; lxml, crop engine for word boxes (C10), CPython str.split/isspace; the text clauses are decided on the grid only.'),
+             'non-negative extents; lxml, crop engine for word boxes (C10), CPython str.split/isspace; the text clauses are decided on the grid only. Bounded additions (round 16): Arabic-script lines with mixed-script / delimiter-edged words; pages with a line of 1040 / 1300 logit frames (genuine defect fixed in c076aee).'),
 }
 CHECKS['C07'] = {
     'level': 'other',
@@ -199,7 +199,7 @@ CHECKS['C12'] = {
              'unchanged as shapes, on 0..2 boxes over a 50 px grid (incl. degenerate, identical), strided triples/quadruples, hand-picked nested / mutually overlapping / grid / '
              'column layouts, with and without de-skew. PROVED: NaiveRegionSorter.process_page calls the clustering with >= 1 sample (guard for < 2 regions) and rebuilds '
              'page.regions by indexing the old list with the returned order.'),
-    'note': 'Trusted: sklearn DBSCAN, shapely, cv2; sort_regions has an ASSUMED contract (permutation of range(n)) backed by the bounded tier only; SmartRegionSorter recursion has no variant.',
+    'note': 'Trusted: sklearn DBSCAN, shapely, cv2; sort_regions has an ASSUMED contract (permutation of range(n)) backed by the bounded tier only; SmartRegionSorter recursion has no variant. Bounded addition (round 16): pages with integer coordinate arrays and a clear slant.',
 }
 
 CHECKS['C11'] = {
@@ -208,7 +208,7 @@ CHECKS['C11'] = {
     'text': ('PROVED: the pre-filter of assign_lines_to_regions marks every (line, region) pair whose boxes overlap with positive area and rejects pairs separated along both axes. '
              'BOUNDED: placed baselines inside the region and pieces of the detected baseline, outline clipped, inside lines unchanged, untouched never placed, longest piece kept, '
              'ids distinct - on 6 rectilinear regions (singly/pairs/all) x 44 baselines; LayoutExtractor.process_page x detect-regions x multi-orientation x merge-lines gives distinct ids.'),
-    'note': 'Trusted: shapely semantics (A6); float32 rounding of boxes (A2); continuous geometry beyond the grid is not decided.',
+    'note': 'Trusted: shapely semantics (A6); float32 rounding of boxes (A2); continuous geometry beyond the grid is not decided. Bounded additions (rounds 15/16): detector whose first line no region takes and whose orientations report different numbers of lines (16 option combinations); lines assigned again to a region object after its polygon was replaced.',
 }
 
 CHECKS['C10'] = {
@@ -232,7 +232,7 @@ CHECKS['C18'] = {
              'one pixel of their exact pre-image under np.rot90, all three lists consistently. BOUNDED numeric: parse() gives one line per ridge with end points within 3 ds, vertical '
              'position within ~1.5 ds, heights = map x ds and each line its own heights, on synthetic maps (1-3 ridges, lengths 6/20/60, slopes 0/+-0.1 plus pairs of slope +-0.25 with overlapping bounding boxes, end-point responses on/off, '
              'ds 1/2/4/8); detect() with a stub network returns original-image coordinates for rot 0..3 on a non-square page.'),
-    'note': 'Trusted: np.rot90 axiom, scipy.ndimage / shapely / cv2 (A6); lists of length one in the rotation proof (the code treats list elements independently); ridge decoding beyond the grid not decided.',
+    'note': 'Trusted: np.rot90 axiom, scipy.ndimage / shapely / cv2 (A6); lists of length one in the rotation proof (the code treats list elements independently); ridge decoding beyond the grid not decided. Bounded addition (round 16): the real TorchParseNet.get_maps_with_optimal_resolution with a recording get_maps over page histories on one long-lived object: the returned factor is the one the returned maps were computed with.',
 }
 
 NOT_APPLICABLE = {
